@@ -9,10 +9,10 @@ git -C /repo worktree add -q --detach "$WT" HEAD || exit 3
 cleanup() { git -C /repo worktree remove --force "$WT" >/dev/null 2>&1; rm -rf "$WT"; }
 trap cleanup EXIT
 cd "$WT" || exit 3
-RC_CLEAN=0; RC_PATCHED=0
-if [ -f "$SRC/check.py" ]; then /venv/bin/python "$SRC/check.py" >"$WT/.c0.out" 2>&1; RC_CLEAN=$?; fi
-if ! git apply "$SRC/patch.diff" 2>"$WT/.apply.err"; then echo "$NAME: patch does not apply: $(head -2 $WT/.apply.err)"; exit 1; fi
-if [ -f "$SRC/check.py" ]; then /venv/bin/python "$SRC/check.py" >"$WT/.c1.out" 2>&1; RC_PATCHED=$?; fi
+RC_CLEAN=0; RC_PATCHED=0; REBASED=0
+if [ -f "$SRC/check.py" ]; then mkdir -p "$WT/OUT/$NAME"; cp "$SRC/check.py" "$WT/OUT/$NAME/check.py"; FIM_ROOT="$WT" /venv/bin/python "$WT/OUT/$NAME/check.py" >"$WT/.c0.out" 2>&1; RC_CLEAN=$?; fi
+if ! git apply "$SRC/patch.diff" 2>"$WT/.apply.err"; then if ! git apply -3 "$SRC/patch.diff" 2>>"$WT/.apply.err" || grep -rq "^<<<<<<<" fim; then echo "$NAME: patch does not apply: $(head -2 $WT/.apply.err)"; exit 1; fi; git diff HEAD -- fim > "$WT/.rebased.diff"; REBASED=1; fi
+if [ -f "$SRC/check.py" ]; then FIM_ROOT="$WT" /venv/bin/python "$WT/OUT/$NAME/check.py" >"$WT/.c1.out" 2>&1; RC_PATCHED=$?; fi
 /venv/bin/python -m pytest -q -p no:cacheprovider --timeout=900 --continue-on-collection-errors --junitxml="$WT/.junit.xml" >"$WT/.pytest.out" 2>&1
 MISSING=$(/venv/bin/python - "$WT/.junit.xml" <<'PY'
 import json, sys, xml.etree.ElementTree as ET
@@ -29,7 +29,9 @@ echo "$NAME: smoke clean=$RC_CLEAN patched=$RC_PATCHED; baseline tests missing=$
 if [ "$RC_CLEAN" = 0 ] && [ "$RC_PATCHED" = 0 ] && [ "$MISSING" = 0 ]; then
   DEST=/verif/refactors/$NAME
   mkdir -p "$DEST"
-  cp "$SRC/patch.diff" "$DEST/"; [ -f "$SRC/check.py" ] && cp "$SRC/check.py" "$DEST/"
+  cp "$SRC/patch.diff" "$DEST/";
+  [ "${REBASED:-0}" = 1 ] && cp "$WT/.rebased.diff" "$DEST/patch.diff"
+  [ -f "$SRC/check.py" ] && cp "$SRC/check.py" "$DEST/"
   /venv/bin/python - "$SRC/meta.json" "$DEST/meta.json" "$SUMMARY" "$(git -C /repo rev-parse --short HEAD)" <<'PY'
 import json, sys
 src, dst, summary, head = sys.argv[1:5]
